@@ -28,6 +28,10 @@ TEXT = {
             "proof (partial): tokio scheduling not modelled; the listen()/TCP path is exercised under C10"),
     "C09": ("proof", "5 C09", "Theorems C09_read_cut (stream ending at ANY offset q inside the next frame: exactly the complete requests were handled, exactly their answers written, loop ended), C09_write_cut (write side failing at any point: calls = reqs.take k, answers to the first k-1 fully written, nothing beyond a prefix of the k-th), C09_write_prefix, C09_no_panic. Partial: promptness (time) is exercised under paused virtual time, not proved. Tie: fault enumeration over EVERY read cut offset (close / dribble+close / reset) and EVERY write failure offset (error and Ok(0)) of each corpus stream.",
             "proof (partial): termination in real time and wake-ups are runtime behaviour"),
+    "C10": ("proof", "5 C10", "Theorems over the listener's labelled transition system (accept loop, per-connection tasks, handshakes; labels for peers arriving, sending anything, handshakes completing / failing / never completing, tasks consuming items incl. a handler panic): C10_frame (a step of another connection leaves this connection's component untouched), C10_answers_routed (in every reachable state what was written to c is exactly one answer per request c's own peer sent, in order - a function of c's input alone), C10_accept_enabled (the accept loop never waits on a peer; every backlog entry can be accepted), C10_serve_enabled, C10_handshake_enabled, and the negative witness C10_inline_blocks for the code before fix D9. Partial: tokio's scheduler fairness, the kernel backlog and accept() errors are runtime behaviour. Tie: real listen() on port 0 (verif_local_addr) on a multi-threaded runtime over loopback; scenario table fault kind x moment x plain/TLS x 1..4 well-behaved clients x 1..3 faulty peers; each good client's answers (ids and markers) are checked, a late connection must be served; the driver predicts the same from the model.",
+            "proof (partial): scheduler fairness and real time are runtime behaviour; the multi-threaded runs are randomised in timing"),
+    "C13": ("proof", "5 C13", "Theorem C13_table: for every cell of the finite table and EVERY port, the outcome produced by the decision glue (use_tls decides whether a session is attempted; verify_cert is passed as !accept_invalid; the domain handed to the TLS library is host_of(address), proved to be the host part for host:port, a.b.c.d:port and [v6]:port) equals the table the property states; C13_no_cleartext, C13_server_tls_never_plain, C13_domain_matters (defect D11 in the model's terms). Partial: the TLS library's semantics is a stated parameter (accept iff accept-invalid or trusted chain naming the domain). Tie: EXHAUSTIVE - every cell (x host name / IPv4 / IPv6 literal) is executed with the library's real client and server over loopback through a recording relay, certificates generated per run, trust injected via SSL_CERT_FILE, a unique marker searched in the capture; listen() is re-entered once before each cell.",
+            "proof (partial): native-tls / OpenSSL behaviour is an assumption, tied only by the exhaustive table run"),
     "C11": ("proof", "5 C11", "Theorems over the client's labelled transition system (labels = the lock-granularity atomic steps of send_message / handle / process_decoded_msg): C11_safety for EVERY run (any interleaving, any peer): a future only ever holds a message the peer emitted whose id is the id of its own request; C11_delivery and C11_once for polite runs (fresh ids, peer answers started requests at most once): every emitted answer ends in the future of its own request, in at most one. Proved by a 7- and a 15-clause inductive invariant. Partial: tokio's scheduler, oneshot channel and mutex are assumed. Tie: trace conformance - the harness drives the real client on scripted streams (verif_attach_stream + trace points), the driver replays every observed event trace through Client.step and rejects a trace that is not a run or whose predicted future values differ; the properties are also evaluated directly on the observed future values.",
             "proof (partial): tokio scheduling, oneshot delivery, Mutex serialisation are assumptions (DESIGN.md section 3); multi-threaded TCP runs are supporting evidence only"),
     "C12": ("proof", "5 C12", "Theorems C12_stopped (once the reader has stopped, for whatever reason, the table is closed and NO future is pending), C12_send_after_stop (a later send is refused under the lock), C12_superseded, C12_pending_means_waiting (pending implies the reader runs and the waiter is still registered or being delivered to) - for every run of the transition system. Partial: that the oneshot actually wakes the awaiting task is runtime behaviour; hangs are detected under paused virtual time. Tie: as C11, with the answer stream cut at EVERY byte offset (close / reset / undecodable continuation), corrupted, unmatched, duplicated answers at every position, superseded waiters, sends after the stop.",
